@@ -23,7 +23,8 @@
 (*          pc]>>; Len(inst) is the code's `depth`                         *)
 (*   marks  continuation marks: what call/cc captured                      *)
 (*   phase  "run" | "exited" (vm() returned, Rust caller in control) |     *)
-(*          "raised" (vm() returned an error, unwinder in control)         *)
+(*          "raised" (vm() returned an error, unwinder in control) |       *)
+(*          "failed" (no handler: the error goes to the Rust caller)       *)
 (*                                                                         *)
 (* The register `sp` of the code is not a variable: it is Top (the sp of   *)
 (* the innermost frame, 0 without frames) whenever an instruction is       *)
@@ -60,11 +61,17 @@ CONSTANTS MaxStack,    \* generative mode: bound on Len(stk)
           MaxIp,       \* generative mode: instruction addresses 0..MaxIp
           MaxArgs,     \* generative mode: operands of a call
           NMarks,      \* generative mode: continuation marks 1..NMarks
-          Ghost        \* TRUE: stack elements are distinct identities (model checking)
+          MaxFresh,    \* generative mode: bound on the ghost identities handed out (state constraint)
+          Ghost,       \* TRUE: stack elements are distinct identities (model checking)
                        \* FALSE: all 0 (trace validation: only lengths are observable)
+          Defects      \* named deviations of the code from the design that are switched on:
+                       \*   "nested_unwind_pops_outer"  the unwinder of a nested instalment pops one frame of its
+                       \*        CALLER before it notices that its own frames are used up, and returns without
+                       \*        restoring the caller's registers (the pinned commit; repaired by a fix: commit)
 
-VARIABLES stk, fr, ip, code, pc, inst, marks, phase, fresh, saved, last
-vars == <<stk, fr, ip, code, pc, inst, marks, phase, fresh, saved, last>>
+VARIABLES stk, fr, ip, code, pc, inst, marks, phase, fresh, saved, last,
+          iid      \* the running instalment (ghost): <<its identity, next unused identity, Len(fr) when it was entered>>
+vars == <<stk, fr, ip, code, pc, inst, marks, phase, fresh, saved, last, iid>>
 
 NoMark == [st |-> "none"]
 Top  == IF fr = << >> THEN 0 ELSE fr[Len(fr)].sp
@@ -74,6 +81,7 @@ Front(s) == SubSeq(s, 1, Len(s) - 1)
 \* k new values
 RECURSIVE News(_, _)
 News(k, f) == IF k = 0 THEN << >> ELSE <<(IF Ghost THEN f ELSE 0)>> \o News(k - 1, f + 1)
+Min2(a, b) == IF a < b THEN a ELSE b
 Frame(sp, rip, rcode, hnd, mk) == [sp |-> sp, rip |-> rip, rcode |-> rcode, hnd |-> hnd, mk |-> mk]
 
 -----------------------------------------------------------------------------
@@ -152,7 +160,7 @@ Local(pop, push, nip) ==
   /\ SLen - pop >= Top
   /\ stk' = Prefix(stk, SLen - pop) \o News(push, fresh) /\ fresh' = fresh + push
   /\ ip' = nip /\ last' = "Local"
-  /\ UNCHANGED <<fr, code, pc, inst, marks, phase, saved>>
+  /\ UNCHANGED <<fr, code, pc, inst, marks, phase, saved, iid>>
 
 \* call of a closure: `extra` operands are removed first (the callee value), n arguments become the
 \* new frame's locals; a variadic callee gets its rest arguments collected into one list, so the
@@ -160,26 +168,26 @@ Local(pop, push, nip) ==
 CallClosure(extra, n, nsl, rip, ncode) ==
   LET base == SLen - extra - n IN
   /\ phase = "run"
-  /\ base >= Top /\ nsl >= base /\ nsl <= base + n + 1
+  /\ base >= Top /\ (nsl = base + n \/ (nsl >= base + 1 /\ nsl <= base + n + 1))
   /\ stk' = IF nsl = base + n THEN Prefix(stk, base + n)
             ELSE Prefix(stk, Min2(nsl - 1, base + n)) \o News(1, fresh)
   /\ fresh' = fresh + 1
   /\ fr' = Append(fr, Frame(base, rip, code, FALSE, 0))
   /\ saved' = Append(saved, Prefix(stk, base))
   /\ ip' = 0 /\ code' = ncode /\ pc' = pc + 1 /\ last' = "CallClosure"
-  /\ UNCHANGED <<inst, marks, phase>>
+  /\ UNCHANGED <<inst, marks, phase, iid>>
 
 \* tail call of a closure: the current frame is reused, its locals are replaced by the arguments
 TailCallClosure(extra, n, nsl, ncode) ==
   LET base == SLen - extra - n
       ar   == nsl - Top IN
   /\ phase = "run" /\ fr # << >>
-  /\ base >= Top /\ ar >= 0 /\ ar <= n + 1
+  /\ base >= Top /\ (ar = n \/ (ar >= 1 /\ ar <= n + 1))
   /\ stk' = Prefix(stk, Top) \o (IF ar = n THEN SubSeq(stk, base + 1, base + n)
                                   ELSE SubSeq(stk, base + 1, base + Min2(ar - 1, n)) \o News(1, fresh))
   /\ fresh' = fresh + 1
   /\ ip' = 0 /\ code' = ncode /\ last' = "TailCall"
-  /\ UNCHANGED <<fr, pc, inst, marks, phase, saved>>
+  /\ UNCHANGED <<fr, pc, inst, marks, phase, saved, iid>>
 
 \* return: the innermost frame is popped, one result replaces its locals
 Return ==
@@ -189,7 +197,7 @@ Return ==
        /\ stk' = Prefix(stk, f.sp) \o <<stk[SLen]>>
        /\ ip' = f.rip /\ code' = f.rcode
   /\ fr' = Front(fr) /\ saved' = Front(saved) /\ pc' = pc - 1 /\ last' = "Return"
-  /\ UNCHANGED <<inst, marks, phase, fresh>>
+  /\ UNCHANGED <<inst, marks, phase, fresh, iid>>
 
 \* a primitive called in tail position: its result is returned at once (handle_pop_pure_value)
 ReturnValue(extra, n) ==
@@ -200,7 +208,7 @@ ReturnValue(extra, n) ==
        /\ ip' = f.rip /\ code' = f.rcode
   /\ fresh' = fresh + 1
   /\ fr' = Front(fr) /\ saved' = Front(saved) /\ pc' = pc - 1 /\ last' = "Return"
-  /\ UNCHANGED <<inst, marks, phase>>
+  /\ UNCHANGED <<inst, marks, phase, iid>>
 
 \* return with pc = 1: vm() hands the result to its Rust caller; the frame (if any) is dropped and the
 \* stack is cut at its base
@@ -210,46 +218,53 @@ Finish ==
   /\ fr' = IF fr = << >> THEN fr ELSE Front(fr)
   /\ saved' = IF fr = << >> THEN saved ELSE Front(saved)
   /\ pc' = 0 /\ phase' = "exited" /\ ip' = ip + 1 /\ last' = "Finish"
-  /\ UNCHANGED <<code, inst, marks, fresh>>
+  /\ UNCHANGED <<code, inst, marks, fresh, iid>>
 
 \* a builtin re-enters the interpreter for a closure (call_with_instructions_and_reset_state):
 \* the caller's ip, code and pc are saved, a frame for the closure is pushed with its k arguments
 EnterNested(k, ncode) ==
   /\ phase = "run"
-  /\ inst' = Append(inst, [ip |-> ip, code |-> code, pc |-> pc])
+  /\ inst' = Append(inst, [ip |-> ip, code |-> code, pc |-> pc, base |-> Len(fr), iid |-> iid[1], cbase |-> iid[3]])
+  /\ iid' = <<iid[2], iid[2] + 1, Len(fr)>>
   /\ fr' = Append(fr, Frame(SLen, ip, code, FALSE, 0))
   /\ saved' = Append(saved, stk)
   /\ stk' = stk \o News(k, fresh) /\ fresh' = fresh + k
   /\ ip' = 0 /\ code' = ncode /\ pc' = 1 /\ last' = "EnterNested"
   /\ UNCHANGED <<marks, phase>>
 
-\* ... and gets control back: the saved registers are restored
-Leave ==
-  /\ phase \in {"exited", "raised"} /\ inst # << >>
+\* ... and gets control back: the saved registers are restored.  `ph` is "run" when the caller is a
+\* builtin of an instruction in flight, "exited" when the host had called in on an idle engine
+LeaveTo(ph) ==
+  /\ phase \in {"exited", "failed"} /\ inst # << >>
   /\ LET o == inst[Len(inst)] IN ip' = o.ip /\ code' = o.code /\ pc' = o.pc
-  /\ inst' = Front(inst) /\ phase' = "run" /\ last' = "Leave"
+  /\ inst' = Front(inst) /\ phase' = ph /\ last' = "Leave" /\ iid' = <<inst[Len(inst)].iid, iid[2], inst[Len(inst)].cbase>>
   /\ UNCHANGED <<stk, fr, marks, fresh, saved>>
+Leave == LeaveTo("run")
 
 \* call/cc: the continuation mark records the whole control state; the receiver runs in a new frame
 \* that carries the mark (the frame's base is the stack top, the continuation is its one local)
 Capture(m, rip, ncode) ==
   /\ phase = "run"
   /\ marks' = [marks EXCEPT ![m] = [st |-> "open", fr |-> fr, stk |-> stk, sv |-> saved, ip |-> rip - 1, code |-> code,
-                                    pc |-> pc, depth |-> Len(inst)]]
+                                    pc |-> pc, iid |-> iid[1]]]
   /\ fr' = Append(fr, Frame(SLen, rip, code, FALSE, m))
   /\ saved' = Append(saved, stk)
   /\ stk' = stk \o News(1, fresh) /\ fresh' = fresh + 1
   /\ ip' = 0 /\ code' = ncode /\ pc' = pc + 1 /\ last' = "Capture"
-  /\ UNCHANGED <<inst, phase>>
+  /\ UNCHANGED <<inst, phase, iid>>
 
 \* a continuation is applied to one value: frames, operands, registers are those captured; the value
 \* is the result of the call/cc expression
 Invoke(m) ==
   /\ phase = "run" /\ marks[m].st # "none"
+  \* a continuation belongs to the interpreter instalment that captured it: the frames it restores are
+  \* frames of that instalment's Rust activation.  Re-instating it from another instalment (out of or
+  \* into a callback of a builtin) is the named deviation "invoke_across_instalments"
+  /\ (marks[m].iid = iid[1] \/ "invoke_across_instalments" \in Defects)
   /\ fr' = marks[m].fr /\ saved' = marks[m].sv
   /\ stk' = marks[m].stk \o News(1, fresh) /\ fresh' = fresh + 1
   /\ ip' = marks[m].ip + 1 /\ code' = marks[m].code /\ pc' = marks[m].pc /\ last' = "Invoke"
-  /\ UNCHANGED <<inst, marks, phase>>
+  /\ UNCHANGED <<inst, marks, phase, iid>>
 
 \* call-with-exception-handler: the thunk runs in a new frame that carries the handler
 HandlerFrame(rip, ncode) ==
@@ -257,21 +272,21 @@ HandlerFrame(rip, ncode) ==
   /\ fr' = Append(fr, Frame(SLen, rip, code, TRUE, 0))
   /\ saved' = Append(saved, stk)
   /\ ip' = 0 /\ code' = ncode /\ pc' = pc + 1 /\ last' = "HandlerFrame"
-  /\ UNCHANGED <<stk, inst, marks, phase, fresh>>
+  /\ UNCHANGED <<stk, inst, marks, phase, fresh, iid>>
 
 \* any instruction may fail: vm() returns the error to the unwinder of its instalment
 Raise ==
   /\ phase = "run"
   /\ phase' = "raised" /\ last' = "Raise"
-  /\ UNCHANGED <<stk, fr, ip, code, pc, inst, marks, fresh, saved>>
+  /\ UNCHANGED <<stk, fr, ip, code, pc, inst, marks, fresh, saved, iid>>
 
-\* frames the unwinder may pop: those of the current instalment (pc counts them)
-Unwindable == IF pc - 1 < Len(fr) THEN pc - 1 ELSE Len(fr)
+\* frames the unwinder may pop: pc counts the frames of the current instalment
+Unwindable == Min2(pc, Len(fr))
 \* the innermost of them that carries a handler (0 = none)
 HandlerIdx == LET c == {h \in (Len(fr) - Unwindable + 1)..Len(fr) : fr[h].hnd}
               IN IF c = {} THEN 0 ELSE CHOOSE h \in c : \A g \in c : g <= h
 
-\* the unwinder pops frames up to the innermost frame with a handler; that frame stays, now running
+\* the unwinder pops frames down to the innermost frame with a handler; that frame stays, now running
 \* the handler procedure on the error value, at the frame's own base
 Unwind(ncode) ==
   /\ phase = "raised" /\ HandlerIdx # 0
@@ -281,25 +296,43 @@ Unwind(ncode) ==
        /\ stk' = Prefix(stk, fr[h].sp) \o News(1, fresh)
        /\ pc' = pc - (Len(fr) - h)
   /\ fresh' = fresh + 1 /\ ip' = 0 /\ code' = ncode /\ phase' = "run" /\ last' = "Unwind"
-  /\ UNCHANGED <<inst, marks>>
+  /\ UNCHANGED <<inst, marks, iid>>
 
-\* no handler: every frame of the instalment is dropped and the error is handed to the Rust caller
-\* (the engine clears the operand stack at depth 0; a nested instalment leaves it as it is)
-UnwindAll ==
-  /\ phase = "raised" /\ HandlerIdx = 0
+\* no handler among them: the frames of the instalment are dropped and the error is handed to the Rust
+\* caller (the engine clears the operand stack at depth 0; a nested instalment leaves it to its caller)
+UnwindAllBody ==
   /\ fr' = Prefix(fr, Len(fr) - Unwindable) /\ saved' = Prefix(saved, Len(fr) - Unwindable)
   /\ stk' = IF inst = << >> THEN << >> ELSE stk
-  /\ pc' = pc - Unwindable /\ last' = "UnwindAll"
-  /\ UNCHANGED <<ip, code, inst, marks, phase, fresh>>
+  /\ pc' = pc - Unwindable /\ phase' = "failed" /\ last' = "UnwindAll"
+  /\ UNCHANGED <<ip, code, inst, marks, fresh, iid>>
+UnwindAll ==
+  /\ phase = "raised" /\ HandlerIdx = 0
+  /\ ~("nested_unwind_pops_outer" \in Defects /\ inst # << >> /\ Len(fr) > Unwindable)
+  /\ UnwindAllBody
+\* an instruction fails and no frame of the instalment carries a handler (Raise, then UnwindAll, as one step)
+RaiseUnhandled ==
+  /\ phase = "run" /\ HandlerIdx = 0
+  /\ ~("nested_unwind_pops_outer" \in Defects /\ inst # << >> /\ Len(fr) > Unwindable)
+  /\ UnwindAllBody
 
-Min2(a, b) == IF a < b THEN a ELSE b
+\* AS THE PINNED CODE DOES IT (named deviation): in a nested instalment the loop pops a frame first and
+\* only then tests `pop_count == 0`; the frame it popped belongs to the caller of the builtin, and the
+\* early return skips the restoration of ip / code / pc / depth - the error can no longer be caught by
+\* a handler of the caller, whose frame count and registers are wrong from here on
+UnwindAll_PopsOuter ==
+  /\ "nested_unwind_pops_outer" \in Defects
+  /\ phase = "raised" /\ HandlerIdx = 0 /\ inst # << >> /\ Len(fr) > Unwindable
+  /\ fr' = Prefix(fr, Len(fr) - Unwindable - 1) /\ saved' = Prefix(saved, Len(fr) - Unwindable - 1)
+  /\ pc' = 0 /\ inst' = Front(inst) /\ phase' = "raised" /\ last' = "UnwindAll_PopsOuter"
+  /\ iid' = <<inst[Len(inst)].iid, iid[2], inst[Len(inst)].cbase>>
+  /\ UNCHANGED <<stk, ip, code, marks, fresh>>
 
 -----------------------------------------------------------------------------
 (* Generative specification: every program, every callee *)
 
 Code == 1..NCodes
 Init == /\ stk = << >> /\ fr = << >> /\ ip = 0 /\ code = 1 /\ pc = 1 /\ inst = << >>
-        /\ marks = [m \in 1..NMarks |-> NoMark] /\ phase = "run" /\ fresh = 1 /\ saved = << >> /\ last = "Init"
+        /\ marks = [m \in 1..NMarks |-> NoMark] /\ phase = "run" /\ fresh = 1 /\ saved = << >> /\ last = "Init" /\ iid = <<0, 1, 0>>
 
 Next ==
   \/ \E pop \in 0..2, push \in 0..1, nip \in 0..MaxIp : SLen - pop + push <= MaxStack /\ Local(pop, push, nip)
@@ -315,22 +348,33 @@ Next ==
   \/ Leave
   \/ \E m \in 1..NMarks, rip \in 1..MaxIp, c \in Code :
         marks[m].st = "none" /\ Len(fr) < MaxFrames /\ SLen < MaxStack /\ Capture(m, rip, c)
-  \/ \E m \in 1..NMarks : SLen < MaxStack + 1 /\ marks[m].st # "none" /\ marks[m].depth = Len(inst) /\ Invoke(m)
+  \/ \E m \in 1..NMarks : SLen < MaxStack + 1 /\ marks[m].st # "none" /\ Invoke(m)
   \/ \E rip \in 1..MaxIp, c \in Code : Len(fr) < MaxFrames /\ HandlerFrame(rip, c)
   \/ Raise
   \/ \E c \in Code : Unwind(c)
   \/ UnwindAll
+  \/ UnwindAll_PopsOuter
 Spec == Init /\ [][Next]_vars
+\* state constraint of the bounded configurations (the ghost counters are the only unbounded parts)
+StateBound == fresh <= MaxFresh /\ iid[2] <= MaxDepth + 2
 
 -----------------------------------------------------------------------------
 (* Properties *)
 
-TypeOK == /\ phase \in {"run", "exited", "raised"} /\ pc \in Nat /\ ip \in Nat
+TypeOK == /\ phase \in {"run", "exited", "raised", "failed"} /\ pc \in Nat /\ ip \in Nat
           /\ Len(saved) = Len(fr)
 
 FramesOk ==
   /\ \A i \in 1..Len(fr) : fr[i].sp <= SLen /\ (i > 1 => fr[i - 1].sp <= fr[i].sp)
   /\ phase = "run" => pc >= 1
+
+\* a nested instalment never removes frames of the instalments that wait for it
+OuterFramesKept == Len(fr) >= iid[3] /\ \A i \in 1..Len(inst) : Len(fr) >= inst[i].base
+
+\* (C08) when a nested instalment ends with an error, the frames of its caller are all still there, so
+\* that the caller's unwinder can find the caller's handlers
+NestedErrorKeepsCallerFrames ==
+  [][(inst # << >> /\ last' \in {"UnwindAll", "UnwindAll_PopsOuter"}) => Len(fr') >= iid[3]]_vars
 
 \* the operands of every caller are what they were when its callee's frame was pushed
 CallerIntact == \A i \in 1..Len(fr) : Prefix(stk, fr[i].sp) = saved[i]
